@@ -20,7 +20,7 @@ CHECKS = {
          "DESIGN.md §3 C05"),
  "C06": ("model_checking",
          "explicit-state exhaustive search as C05 with an exact big.Rat reference model of per-block release and stake-weighted entitlement carried along every path and compared in every reached state",
-         "Same histories as C05; reference model releases reward-per-block exactly while someone is staked and splits it pro rata in exact rationals. In every state: funded = remaining + released (after settling on a branch), released = paid + collector, refund to the creator exactly once (at end height or destroy) and equal to funded - released, each farmer's paid+accrued within (interactions+1) units (+1e-18 truncation term) of the exact share.",
+         "Same histories as C05; reference model releases reward-per-block exactly while someone is staked and splits it pro rata in exact rationals. In every state: funded = remaining + released (after settling on a branch), released = paid + collector, refund to the creator exactly once (at end height or destroy) and equal to funded - released, each farmer's paid+accrued within (interactions+1) units (+1e-18 truncation term) of the exact share; what the pool still promises to release until its end height never exceeds the remaining budget.",
          "DESIGN.md §3 C06"),
  "C01": ("model_checking",
          "exhaustive enumeration of the price functions over a finite input lattice (all small triples, powers of two +-1 up to 2^128, 5 boundary fees) plus explicit-state exhaustive search over swap/add/remove/one-sided/donate/fee-change sequences on the real coinswap keeper, invariant recomputed from observed balances in exact integers",
@@ -28,15 +28,15 @@ CHECKS = {
          "DESIGN.md §3 C01"),
  "C02": ("model_checking",
          "explicit-state exhaustive search over swap/liquidity message sequences with a full balance-sheet oracle (all accounts of the universe + supply per denom) and a differential bound oracle (amounts learned on a throw-away branch, then bounds set exact / off by one)",
-         "Every sequence up to the depth bound of sell/buy orders (single and routed, recipient = sender / other / blocked, bounds loose / exact / missed by one, deadline now / past) and liquidity messages (incl. first add on a new pool with creation fee, re-seeding a drained pool): the observed delta of every account and every supply must equal exactly what the property allows; stated maxima/minima and deadlines are checked on what actually moved. A withdrawal offering a coin that merely looks like a liquidity token (name ending in a pool's sequence number) must never succeed, nor may a one-sided add / remove naming a third denomination that merely rests on the pool's escrow account.",
+         "Every sequence up to the depth bound of sell/buy orders (single and routed, recipient = sender / other / blocked, bounds loose / exact / missed by one, deadline now / past) and liquidity messages (incl. first add on a new pool with creation fee, re-seeding a drained pool): the observed delta of every account and every supply must equal exactly what the property allows; stated maxima/minima and deadlines are checked on what actually moved. A withdrawal offering a coin that merely looks like a liquidity token (name ending in a pool's sequence number) must never succeed, nor may a one-sided add / remove naming a third denomination that merely rests on the pool's escrow account; coins parked on the module's own account by a plain transfer stay where they are (nothing but them may rest there).",
          "DESIGN.md §3 C02"),
  "C03": ("model_checking",
          "explicit-state exhaustive search over create/claim/block/jump-to-expiry sequences on the real HTLC keeper with a contract-status reference model and a full balance-sheet oracle per message and per begin-block",
-         "Every sequence up to the depth bound of creates (plain single/multi-coin, duplicate ids, timestamped hash locks, incoming/outgoing cross-chain), claims (right / wrong secret, on open / completed / refunded contracts) and block steps around the expiration height (several contracts expiring at one height): state only moves open->completed|refunded, funds move exactly once and only as the property says, refunds happen exactly in the begin-block of the expiration height with one event each, escrow = open contracts. Two further parts add restart-from-genesis (export, validation, emptied stores, InitGenesis) as an operation; the reference forgets closed contracts, which the export drops by design. The restart is offered inside a block, between two blocks (InitGenesis under the next block's height) and with an initial height 51 above the export's (overdue contracts stay open; funds leave escrow at most once).",
+         "Every sequence up to the depth bound of creates (plain single/multi-coin, duplicate ids, timestamped hash locks, incoming/outgoing cross-chain), claims (right / wrong secret, on open / completed / refunded contracts) and block steps around the expiration height (several contracts expiring at one height): state only moves open->completed|refunded, funds move exactly once and only as the property says, refunds happen exactly in the begin-block of the expiration height with one event each, escrow = open contracts. Two further parts add restart-from-genesis (export, validation, emptied stores, InitGenesis) as an operation; the reference forgets closed contracts, which the export drops by design. The restart is offered inside a block, between two blocks (InitGenesis under the next block's height) and with an initial height 51 above the export's (overdue contracts stay open; funds leave escrow at most once). Further parts: governance freezing transfers of the locked denomination (bank SendEnabled) over an expiry, and a scripted history of 120 contracts due at one height.",
          "DESIGN.md §3 C03"),
  "C04": ("model_checking",
          "explicit-state exhaustive search as C03 with two time-limited assets, block-time steps that straddle the limit period, and counters recomputed from the HTLC queries and an independent tumbling-window reference",
-         "In every reached state: escrow = open ordinary + open outgoing; per asset incoming/outgoing counters = sums over open transfers; current = minted - burned = bank supply; current + incoming <= limit; amount completed inside one reference window <= time-based limit (two assets with different periods, so cross-asset interference in the window reset is visible). A part imports the exported genesis of a reachable state broken in exactly one way per case (four cases) and requires the import to refuse it; two parts add restart-from-genesis as an operation (inside a block, between two blocks, and at a later initial height).",
+         "In every reached state: escrow = open ordinary + open outgoing; per asset incoming/outgoing counters = sums over open transfers; current = minted - burned = bank supply; current + incoming <= limit; amount completed inside one reference window <= time-based limit (two assets with different periods, so cross-asset interference in the window reset is visible). A part imports the exported genesis of a reachable state broken in exactly one way per case (four cases) and requires the import to refuse it; two parts add restart-from-genesis as an operation (inside a block, between two blocks, and at a later initial height); the bank-freeze and 120-contract parts of C03 run here too.",
          "DESIGN.md §3 C04"),
  "C15": ("model_checking",
          "explicit-state exhaustive search over issue/mint/edit/transfer/burn/transfer-class sequences with boundary uint64 amounts on the real MT keeper, exact big-integer reference ledger compared through every query after every message",
@@ -76,7 +76,7 @@ CHECKS = {
          "DESIGN.md §3 C17"),
  "C10": ("model_checking",
          "exhaustive enumeration of LossLessSwap over all scale pairs 0..18 x an input lattice x 8 ratios against exact rational arithmetic, plus explicit-state exhaustive search over ERC20 conversions (both directions, by min unit and by symbol, swap-to-native hook, ERC20 switch off/on, restart from exported genesis) with a store-backed fault-injecting EVM (<= 1 fault per conversion) and fee-token swaps at three ratios on the real token keeper",
-         "Kernel: 0 <= burned <= offered, minted*10^s_in <= burned*ratio*10^s_out, equality and unconvertible dust at ratio 1. Search: every conversion moves exactly the amount on both ledgers and keeps native+ERC20 supply constant; any failure (insufficient balance, blocked receiver, injected EVM call error / VM failure / wrong credited amount / balanceOf error) leaves both ledgers unchanged; fee swaps never burn more than offered, never mint more than worth, supplies move by exactly burned/minted, module account empty. The fee-swap registry is built once per application instance; one part issues the second fee token on the path with one of two scales; one part deploys the contract with other decimals than the token's scale (the EVM seam answers decimals() accordingly); contract-initiated conversions carry a real EVM message, addressed to the bound contract or to another contract that calls it.",
+         "Kernel: 0 <= burned <= offered, minted*10^s_in <= burned*ratio*10^s_out, equality and unconvertible dust at ratio 1. Search: every conversion moves exactly the amount on both ledgers and keeps native+ERC20 supply constant; any failure (insufficient balance, blocked receiver, injected EVM call error / VM failure / wrong credited amount / balanceOf error) leaves both ledgers unchanged; fee swaps never burn more than offered, never mint more than worth, supplies move by exactly burned/minted, module account empty. The fee-swap registry is built once per application instance; one part issues the second fee token on the path with one of two scales; one part deploys the contract with other decimals than the token's scale (the EVM seam answers decimals() accordingly); contract-initiated conversions carry a real EVM message, addressed to the bound contract or to another contract that calls it; a conversion event naming a receiver that is no account of the chain must fail as a whole.",
          "DESIGN.md §3 C10"),
  "C12": ("model_checking",
          "explicit-state exhaustive search with 15 module drivers (record, coinswap, farm x3, htlc x2, token, nft, mt x2, service, random, oracle x2; governance parameter changes offered as operations) wrapped by a genesis round-trip oracle evaluated in every reached state at the block boundary: export -> module's own validation -> InitGenesis on a second application instance with emptied stores -> export again (byte fixpoint) -> first begin-block -> query comparison on the original object ids; second variant after the modules' prepare-for-zero-height step, with a census of durable objects before/after that step",
